@@ -266,8 +266,9 @@ def missing_wedge_mask(
     normal0, normal1 = _get_unrotated_normals(tilt_range)
     shape_vector = np.array(shape, dtype=np.float32)
     rotator_inv = rotator.inv()
-    normal0 = rotator_inv.apply(normal0 * shape_vector)
-    normal1 = rotator_inv.apply(normal1 * shape_vector)
+    # index vector k has physical frequency k / shape, so divide after rotation
+    normal0 = rotator_inv.apply(normal0) / shape_vector
+    normal1 = rotator_inv.apply(normal1) / shape_vector
     vectors = _get_indices(shape)
     dot0 = vectors.dot(normal0)
     dot1 = vectors.dot(normal1)
